@@ -6,7 +6,9 @@ for EVERY Boolean function with n inputs and m outputs at once (n <= 2 in the qu
   PyFunction   real constructor around a callable that answers from the same symbolic table (any callable is such a table).
 Queries: evaluate / evaluate_at (symbolic inputs), is_constant(_at), is_monotone(_at) (both directions; "monotone" as the
 protocol documents it: the value does not decrease along the classic enumeration 00..0, 00..1, ...), is_symmetric(_at),
-is_dependent_on_input_at, is_output_equal_to_input(_negation), get_significant_inputs_of, get_truth_table.
+is_dependent_on_input_at, is_output_equal_to_input(_negation), get_significant_inputs_of, get_truth_table,
+find_negations_to_make_symmetric (a set of input negations under which the chosen outputs are symmetric; None exactly when
+there is none).
 Shapes are width instances (like the arithmetic widths of C07-C09): all functions of the shape are covered, larger shapes and the
 Circuit representation stay with the bounded stand-in."""
 import itertools
@@ -57,6 +59,15 @@ def d_equal_input(T, n, o, i, neg):
     return z3.And([T[o][j] == z3.BoolVal(bits(j, n)[i] != neg) for j in range(1 << n)])
 
 
+def d_symmetric_under(T, n, outs, neg):
+    """the function restricted to the outputs `outs` is symmetric after negating the inputs selected by `neg`:
+    equal values on all assignments x ^ neg with x of equal weight"""
+    def idx(j):
+        return sum((1 << (n - 1 - k)) for k in range(n) if bits(j, n)[k] != neg[k])
+    r = range(1 << n)
+    return z3.And([T[o][idx(i)] == T[o][idx(j)] for o in outs for i in r for j in r if i < j and bin(i).count('1') == bin(j).count('1')] or [z3.BoolVal(True)])
+
+
 def bool_term(it, v):
     if isinstance(v, bool):
         return z3.BoolVal(v)
@@ -104,7 +115,7 @@ class Query(Contract):
     def setup(self, it, ctx):
         T = table(self.n, self.m)
         obj = self.make(it, ctx, T)
-        args = list(self.args)
+        args = [VList(list(x)) if isinstance(x, list) else x for x in self.args]
         xs = None
         if self.q in ('evaluate', 'evaluate_at'):
             xs = [z3.Bool(f'x{k}') for k in range(self.n)]
@@ -136,6 +147,19 @@ class Query(Contract):
             yield ('shape', z3.BoolVal(ok))
             if ok:
                 yield ('entries', z3.And([bool_term(it, rows[o][j]) == T[o][j] for o in range(m) for j in range(1 << n)]))
+            return
+        if q == 'find_negations_to_make_symmetric':
+            outs = list(a[0])
+            order = list(itertools.product((False, True), repeat=n))
+            if result is None:
+                yield ('none-only-if-no-negation-set-works', z3.And([z3.Not(d_symmetric_under(T, n, outs, list(v))) for v in order]))
+                return
+            got = list(it.iterate(result))
+            ok_shape = len(got) == n and all(isinstance(x, bool) for x in got)
+            yield ('a-negation-per-input', z3.BoolVal(ok_shape))
+            if ok_shape:
+                # WHICH of the working negation sets is returned is not part of the property
+                yield ('returned-negations-make-the-outputs-symmetric', d_symmetric_under(T, n, outs, got))
             return
         if q == 'get_significant_inputs_of':
             got = list(it.iterate(result))
@@ -174,7 +198,7 @@ class Query(Contract):
                 f = mod.PyFunction(lambda xs, tab=tab: [tab[o][sum((1 << (n - 1 - k)) for k, x in enumerate(xs) if x)] for o in range(m)], n, output_size=m)
             T = [[z3.BoolVal(v) for v in row] for row in tab]
             try:
-                if self.q in ('evaluate', 'evaluate_at', 'get_truth_table', 'get_significant_inputs_of'):
+                if self.q in ('evaluate', 'evaluate_at', 'get_truth_table', 'get_significant_inputs_of', 'find_negations_to_make_symmetric'):
                     continue
                 got = getattr(f, self.q)(*self.args, **self.kw)
             except Exception as e:      # noqa
@@ -204,7 +228,9 @@ def contracts(deep):
             out.append(Query(kind, n, m, 'is_symmetric'))
             for inv in (False, True):
                 out.append(Query(kind, n, m, 'is_monotone', kwargs={'inverse': inv}))
+            out.append(Query(kind, n, m, 'find_negations_to_make_symmetric', [list(range(m))]))
             for o in range(m):
+                out.append(Query(kind, n, m, 'find_negations_to_make_symmetric', [[o]]))
                 out.append(Query(kind, n, m, 'evaluate_at', [o]))
                 out.append(Query(kind, n, m, 'is_constant_at', [o]))
                 out.append(Query(kind, n, m, 'is_symmetric_at', [o]))
